@@ -445,9 +445,18 @@ def stage(ctx, plan, gen_spec, n_specs, build=None):
                 bad = compare(pairs, label, stats, broken, case=spec)
                 if bad:
                     mism.append({"spec": spec, "label": label, "diff": bad[0]})
-            except Exception as e:      # the analysis refused the model (infeasible, unbounded …): nothing was built, nothing to compare
+            except Exception as e:
+                from cobra.exceptions import OptimizationError
                 k = f"{label}: {type(e).__name__}"
                 errors[k] = errors.get(k, 0) + 1
+                if not isinstance(e, (OptimizationError, ValueError, RuntimeError)):
+                    # refusals are documented as OptimizationError (infeasible, unbounded …), ValueError or RuntimeError: nothing was built then and there
+                    # is nothing to compare.  Anything else is not a refusal: the call, or the context it ran in, broke
+                    import traceback
+                    if len(broken) < 5:
+                        broken.append({"kind": "correspondence", "name": f"{label}: the implementation raised {type(e).__name__} where the model predicts a problem",
+                                       "detail": [f"{type(e).__name__}: {e}"] + traceback.format_exc().splitlines()[-6:], "case": spec})
+                    mism.append({"spec": spec, "label": label, "diff": [f"raised {type(e).__name__}: {e}"]})
     ctx.broken += broken
     ctx.coverage["captured_problem_correspondence"] = {
         "compared": stats, "models": n_specs, "not_built": errors, "mismatches": len(mism),
